@@ -440,6 +440,10 @@ func c48(run *ev.Run) {
 	if a := argsAfterTier(); len(a) > 0 {
 		which = a[0]
 	}
+	if which == "globals" {
+		c48globals(run)
+		return
+	}
 	fs, ok := govFuncs[which]
 	if !ok {
 		ev.Fatal("unknown contract %s", which)
